@@ -20,10 +20,19 @@ assigned to it on *this* path, attributes written on the path are replaced by th
 (strong update; forgotten at calls that may have effects), parameters are bound to caller-chosen
 canonical names, comprehension variables are alpha-renamed, `datetime.now(tz=timezone.utc)` is the
 atom NOW, arithmetic operands are compared in polynomial normal form (sa.engine.terms), and calls
-of simple private helpers of the same class / module (not the anchored functions) are executed
-in line, so that introduced / inlined / renamed locals, extracted helpers, flipped comparisons and
-if/else vs early-return shapes all yield the same summaries.  Constructs the executor does not
-model (loops, try, with, tuple targets, ...) raise `Unsupported`: callers fail closed.
+of private functions of the same class / module are *executed* in line, by value (arguments are the
+expressions as they stand at the call, several returns / tuple results / whole-object parameters
+included; with `inline_all` also the functions other checkers anchor by name), wherever the call
+stands in an expression.  A textual splice (parameter := argument text) is NOT used: it would move
+reads of `self.x` behind the helper's own writes of `self.x`.  A call that may have effects forgets
+what is known about the receiver's and the arguments' attributes.  `a, b = <tuple>` is element-wise;
+a loop over a display of known elements is its body per element, `any/all` over such a display the
+corresponding `or/and`; a search loop (`for v in it: if c(v): return r` / `x = k; break`) is
+`if any(c(v) for v in it): ...`; an `if` that only logs is skipped; an equality with one constant
+decides the equalities with the other constants.  So introduced / inlined / renamed locals and
+helpers, flipped comparisons, if/else vs early-return shapes and loop vs any/all all yield the same
+summaries.  Constructs the executor does not model (other loops, try, with, ...) raise
+`Unsupported`: callers fail closed.
 """
 from __future__ import annotations
 
@@ -67,7 +76,26 @@ def text(e: ast.AST | None) -> str:
     """Canonical text of a resolved expression."""
     if e is None:
         return ""
-    return u(_Canon().visit(copy.deepcopy(e)))
+    cached = getattr(e, "_text", None)
+    if cached is None:
+        if any(isinstance(n, ast.Call) and _is_utc_now(n) for n in ast.walk(e)):
+            cached = u(_Canon().visit(copy.deepcopy(e)))
+        else:
+            cached = u(e)
+        try:
+            e._text = cached  # type: ignore[attr-defined]  (resolved expressions are never edited in place)
+        except AttributeError:
+            pass
+    return cached
+
+
+def _editable_copy(e: ast.AST) -> ast.AST:
+    """Deep copy that may be edited: cached canonical texts are dropped."""
+    new = copy.deepcopy(e)
+    for n in ast.walk(new):
+        if hasattr(n, "_text"):
+            del n._text  # type: ignore[attr-defined]
+    return new
 
 
 def _now_hook(e: ast.AST, _te: TermEval) -> Poly | None:
@@ -701,7 +729,7 @@ class Exec:
             c, got = pick
             pos = next(i for i, n in enumerate(nodes) if n is c)
             for s2, v in got:
-                new = copy.deepcopy(expr)
+                new = _editable_copy(expr)
                 tgt = list(ast.walk(new))[pos]
                 val = copy.deepcopy(v)
                 val._from_env = True  # type: ignore[attr-defined]
@@ -892,9 +920,9 @@ def _unroll_any_all(e: ast.Call) -> ast.AST | None:
                 class Sub(ast.NodeTransformer):
                     def visit_Name(self, node: ast.Name, elt: ast.AST = elt, v: str = c.target.id) -> ast.AST:  # noqa: N802
                         return copy.deepcopy(elt) if node.id == v and isinstance(node.ctx, ast.Load) else node
-                term: ast.AST = Sub().visit(copy.deepcopy(g.elt))
+                term: ast.AST = Sub().visit(_editable_copy(g.elt))
                 for cond in reversed(c.ifs):
-                    cc = Sub().visit(copy.deepcopy(cond))
+                    cc = Sub().visit(_editable_copy(cond))
                     term = ast.BoolOp(op=ast.And(), values=[cc, term]) if name == "any" else \
                         ast.BoolOp(op=ast.Or(), values=[ast.UnaryOp(op=ast.Not(), operand=cc), term])
                 vals.append(term)
